@@ -84,6 +84,7 @@ class WorldAdapter:
         env.log = []
         env.fault = None
         env.killer = None
+        env.remover = None
         env.w = desper.World()
         self.counter += 1
         self.mode = self.modes[self.counter % len(self.modes)]
@@ -134,6 +135,10 @@ class WorldAdapter:
 
         def p_process(self, dt):
             env.log.append(('process', self.name, dt))
+            if env.remover and env.remover[0] == self.name:
+                victim_type = env.remover[1]
+                env.remover = None
+                self.world.remove_processor(env.ptypes[victim_type])
             if env.fault == ('process', self.name):
                 env.fault = None
                 raise Boom()
@@ -160,6 +165,7 @@ class WorldAdapter:
         env.log = []
         env.fault = None
         env.killer = None
+        env.remover = None
         kind = ['ok', 0, '-']
 
         def call():
@@ -191,6 +197,9 @@ class WorldAdapter:
                 w.process(args[0])
             elif name == 'ProcessRemoveFault':
                 env.fault = ('on_remove', args[1])
+                w.process(args[0])
+            elif name == 'ProcessRemover':
+                env.remover = (args[1], args[2])
                 w.process(args[0])
             elif name == 'ProcessKiller':
                 env.killer = (args[1], pyid(args[2]))
@@ -497,7 +506,7 @@ class WorldAdapter:
             if op and ol:
                 first_proc = min(i for i, x in enumerate(o) if x[0] == 'process')
                 last_life = max(i for i, x in enumerate(o) if x[0] != 'process')
-                if name.startswith('Process') and last_life > first_proc:
+                if name.startswith('Process') and name != 'ProcessRemover' and last_life > first_proc:
                     return False
             return True
         pred.__qualname__ = 'log~bag(%r)+seq(%r)' % (life, proc)
